@@ -673,6 +673,19 @@ static Verdict run_C18(const Scn &s) {
       memcpy(riv[st].data(), d, 16);
     }
   }
+  // The recovery assumes that the body really is T standard cipher streams over the padded plaintext (C02/C03's
+  // statement).  Check that assumption with the reference before drawing conclusions about IVs: stream st, started
+  // from the recovered IV, must reproduce all of its chunks; otherwise this run says nothing about C18.
+  for (int st = 0; st < T; st++) {
+    Bytes sp, sc;
+    for (size_t j = (size_t)st; j < nchunks; j += (size_t)T) {
+      size_t off = j * CH, n = std::min(CH, PP.size() - off);
+      sp.insert(sp.end(), PP.begin() + off, PP.begin() + off + n);
+      sc.insert(sc.end(), F.begin() + hs + off, F.begin() + hs + off + n);
+    }
+    Bytes dec = ref_decrypt_body(sc, e.key, riv[st].data(), cm, 1, sc.size() + 16);
+    if (dec != sp) return skip("body-is-not-a-standard-stream(C02/C03 matter)");
+  }
   bool all_slot0 = true;
   for (int st = 0; st < T; st++) if (memcmp(riv[st].data(), &F[48], 16) != 0) all_slot0 = false;
   auto V = [&](const std::string &c, const std::string &d, const std::string &sig) {
